@@ -95,15 +95,11 @@ func (g *Group) Random(prng io.Reader) (*G, error) {
 // the input; the genericity assumption "not the identity, not the generator" is recorded (the
 // library's own NewCommitmentKeyUnchecked refuses exactly those).
 func (g *Group) Hash(b []byte) (*G, error) {
-	p := g.run.newVarL("hashG:" + digestHex(b))
-	if !g.run.concrete {
-		g.run.mu.Lock()
-		for _, c := range []int64{0, 1} {
-			lit := Not(simplifyEqZ(p.sub(polyConst(big.NewInt(c), g.f.q), g.f.q)))
-			g.run.addPath(lit)
-		}
-		g.run.mu.Unlock()
-	}
+	name := "hashG:" + digestHex(b)
+	g.run.mu.Lock()
+	p := g.run.newVar(name)
+	g.run.noteHashVar('G', name, p)
+	g.run.mu.Unlock()
 	return g.mk(p), nil
 }
 
